@@ -143,3 +143,5 @@ PROP = Prop(
     clauses=[Clause("roc", check, strategy=lambda tier: _cases(9 if tier == "quick" else 30), quick=150, thorough=8000, quick_shards=4, fuzz=3000,
                     min_nontrivial=100, doc="roc(): rates, order, support, counts, views")],
 )
+
+RULE_EXTRA = ('float32/float16 scores; +-inf user thresholds; the returned curve is edited in place and roc() called again.')
